@@ -1,16 +1,35 @@
 /-
   spmodel — extension slot G of the line protocol (ops of one model extension;
   chained from Driver/Ext.lean).
+
+    sd.scall <msg hex> <k1,k2,…>     the strict reference decoder for signcryption
+        with ALL recipients' keys in header order (`b:<box secret>` | `s:<symmetric key>`),
+        Model/SpecDecodeAll.lean `signcryptionAll`  →  ok plaintext=… sender=… recipients=… | reject <why>
 -/
 import Driver.Util
+import Saltpack.Model.SpecDecodeAll
 
 open Saltpack
 
 namespace DriverExtG
 open Driver
 
+def showR : Except String String → String
+  | .ok s => "ok " ++ s
+  | .error e => "reject " ++ e.replace " " "_"
+
+def parseKey (s : String) : Option SpecDecode.ScKey :=
+  match s.splitOn ":" with
+  | ["b", k] => (ofHex k).map .box
+  | ["s", k] => (ofHex k).map .sym
+  | _ => none
+
 def handle (toks : List String) : Option String :=
   match toks with
+  | ["sd.scall", msg, ks] =>
+    match ofHex msg, (if ks = "-" then some [] else (ks.splitOn ",").mapM parseKey) with
+    | some m, some keys => some (showR (SpecDecode.signcryptionAll RealPrims m keys))
+    | _, _ => none
   | _ => none
 
 end DriverExtG
